@@ -20,6 +20,14 @@ CLAIMED = {
             "prints `timeout` 3/3 on an otherwise idle machine (or dies of stack overflow / memory exhaustion). Exploration: termination on all finite inputs cannot be shown by sampling, only searched.",
             "Trusts the wall-clock watchdog of ti as the observable; load-induced timeouts are re-checked under a machine-wide exclusive lock and otherwise counted as inconclusive.",
             "DESIGN.md §4 C02"),
+    "C03": ("property-based testing (Hypothesis: lexeme-fragment concatenation, unicode text, raw bytes, corpus byte prefixes) + rapid + native go fuzz of the same predicate; invariant oracle on the lexer API (token bound, full consumption, no read error)",
+            "Generated-input search over rune sequences against an invariant stated on the public lexer/parser API: end of stream within len(runes)+2 tokens, reader position == rune count, parser never answers `read error`. Exploration: all rune sequences cannot be enumerated.",
+            "Trusts the 40-line lexprobe helper (public API + add-only reader-state accessor). A non-answer is retried on a fresh helper before it counts.",
+            "DESIGN.md §4 C03"),
+    "C04": ("property-based testing (Hypothesis: corpus programs, prefixes, token mutants x mode x row); robustness oracle (status, stderr, record grammar, watchdog)",
+            "Generated-input search over (program, editor mode, row) triples incl. rows before the first line and past EOF; violation = panic / non-zero exit / believed hang / a line that is neither a well-formed %,@,$ record nor a diagnostic of the target file. Exploration.",
+            "In-process candidates are confirmed on the guard-off binary; hangs believed only 3/3 under the exclusive lock.",
+            "DESIGN.md §4 C04"),
 }
 
 PENDING_REASON = "check not built yet in this round (planned in DESIGN.md §3.11); no claim is made"
